@@ -20,6 +20,10 @@ open Jamm
 
 theorem params_valid : Gen.params.Valid := by decide
 
+/-- the builder refuses page sizes that would misalign the in-place page views (D14, repaired): every
+accepted size is a multiple of 8, the alignment of the `repr(C)` page structures -/
+theorem accepted_pagesizes_aligned : 8 ∣ Gen.params.pagesizeAlign ∧ 1024 ≤ Gen.params.minPagesize := by decide
+
 /-- `alloc_size = ((size_diff / MIN_ALLOC_SIZE) + 1) * MIN_ALLOC_SIZE`, new length `= current + alloc_size` -/
 def grownSize (current required minAlloc : Nat) : Nat :=
   if current < required then current + (((required - current) / minAlloc) + 1) * minAlloc else current
